@@ -220,6 +220,15 @@ func C20(run *mon.Run) {
 		}
 	}
 	run.Count("reference-checked-lines", checked)
+	// the reference-oracle checks themselves, re-run inside the portable (non-ADX) build: agreement
+	// of the configurations on a transcript is necessary, the oracles make it meaningful
+	cores := []string{"c04core"}
+	if !run.Quick() {
+		cores = []string{"c04core", "c01core", "c02core", "c03core", "c06core", "c17core"}
+	}
+	for _, c := range cores {
+		run.RunChild(os.Getenv("VERIF_BIN_PORTABLE"), c, "portable-"+c, 60*time.Minute)
+	}
 	run.Require(run.Counter("configs-run") == 4, "not all four configurations ran")
 	run.Require(checked > 100, "too few transcript lines checked against the references")
 }
